@@ -270,3 +270,85 @@ def max_count(node, pred):
         if isinstance(v, (dict, list)):
             tot += max_count(v, pred)
     return tot
+
+
+def eval_children(n):
+    """Children of a node in evaluation order (the exported JSON objects are key-sorted, so plain
+    traversal order means nothing)."""
+    k = n.get('k')
+    if k == 'bin' and n.get('op', '').endswith('=') and n.get('op') not in ('==', '!=', '<=', '>='):
+        return [n.get('rhs'), n.get('lhs')]
+    if k == 'bin':
+        return [n.get('lhs'), n.get('rhs')]
+    if k == 'call':
+        out = []
+        if n.get('callee') is not None:
+            out.append(n.get('callee'))
+        if n.get('op') in ('=', '+=', '-=') and n.get('method'):
+            return out + list(n.get('args', [])) + [n.get('obj')]
+        if n.get('obj') is not None:
+            out.append(n.get('obj'))
+        return out + list(n.get('args', []))
+    if k == 'construct':
+        return list(n.get('args', []))
+    if k == 'new':
+        return list(n.get('placement', [])) + [n.get('init')]
+    if k == 'cond':
+        return [n.get('c'), n.get('a'), n.get('b')]
+    if k == 'if':
+        return [n.get('init'), n.get('var'), n.get('c'), n.get('then'), n.get('else')]
+    if k == 'for':
+        return [n.get('init'), n.get('c'), n.get('body'), n.get('inc')]
+    if k == 'while':
+        return [n.get('c'), n.get('body')]
+    if k == 'do':
+        return [n.get('body'), n.get('c')]
+    if k == 'rangefor':
+        return [n.get('range'), n.get('var')] + list(n.get('desugar', [])) + [n.get('body')]
+    if k == 'try':
+        return [n.get('body')] + [h.get('body') for h in n.get('handlers', [])]
+    if k == 'block':
+        return list(n.get('s', []))
+    if k == 'decl':
+        return list(n.get('vars', []))
+    if k == 'ret':
+        return [n.get('e')]
+    if k == 'mem':
+        return [n.get('base')]
+    if k == 'idx':
+        return [n.get('base'), n.get('index')]
+    out = []
+    for key, v in n.items():
+        if isinstance(v, dict):
+            out.append(v)
+        elif isinstance(v, list):
+            out += [x for x in v if isinstance(x, dict)]
+    return out
+
+
+def eval_order(root, inits=None):
+    """id(node) -> sequence number in evaluation order (post-order: a call is numbered after its arguments)."""
+    order = {}
+    counter = [0]
+
+    def rec(n):
+        if isinstance(n, list):
+            for x in n:
+                rec(x)
+            return
+        if not isinstance(n, dict):
+            return
+        for ch in eval_children(n):
+            rec(ch)
+        order[id(n)] = counter[0]
+        counter[0] += 1
+    for i in inits or []:
+        if isinstance(i, dict):
+            rec(i.get('init'))
+    rec(root)
+    return order
+
+
+def first_eval(node, order):
+    """Smallest sequence number inside node (when its evaluation starts)."""
+    return min([order[id(x)] for x in walk(node) if id(x) in order] or [0])
